@@ -1,5 +1,6 @@
 //! Deterministic simulation harness for pacak/bpaf. See /verif/DESIGN.md.
 mod c04;
+mod c18;
 mod driver;
 mod exec;
 mod gen;
@@ -51,6 +52,7 @@ pub fn gen_case(prop: &str, seed: u64, run: u64, pass: Pass) -> Case {
     let s = seed ^ pass.salt();
     let mut c = match prop {
         "C04" => c04::gen_case(s, run, pass == Pass::Faults),
+        "C18" => c18::gen_case(s, run, pass == Pass::Faults),
         _ => panic!("unknown property {}", prop),
     };
     c.seed = seed;
@@ -60,6 +62,7 @@ pub fn gen_case(prop: &str, seed: u64, run: u64, pass: Pass) -> Case {
 pub fn run_case(case: &Case, stats: &mut Stats) -> RunReport {
     match case.prop.as_str() {
         "C04" => c04::run_case(case, stats),
+        "C18" => c18::run_case(case, stats),
         p => panic!("unknown property {}", p),
     }
 }
@@ -90,6 +93,36 @@ pub fn required_probes(prop: &str) -> Vec<&'static str> {
             "rule.T4.evaluated",
             "rule.T6.evaluated",
         ],
+        "C18" => vec![
+            "op.run",
+            "op.setenv",
+            "op.newparser",
+            "line.plain",
+            "line.not_plain",
+            "outcome.value",
+            "outcome.stderr",
+            "outcome.stdout",
+            "fault.env_unset.applied",
+            "fault.env_empty.applied",
+            "fault.env_valid.applied",
+            "fault.env_invalid.applied",
+            "fault.env_non-utf8.applied",
+            "rule.R1.evaluated",
+            "rule.R2.evaluated",
+            "rule.R3.evaluated",
+            "rule.R4.evaluated",
+            "rule.R4.env_only.evaluated",
+            "rule.R5.evaluated",
+            "rule.R7.evaluated",
+            "probe.read_found_variable_set",
+            "probe.same_variable_read_twice_in_one_run",
+            "probe.help_rendered_with_variable_set",
+            "probe.R2_with_invalid_variable",
+            "probe.R3_inside_subcommand",
+            "probe.alias_decided_the_value",
+            "probe.non_utf8_reached_osstring",
+            "probe.invalid_value_under_fallback",
+        ],
         _ => vec![],
     }
 }
@@ -97,6 +130,7 @@ pub fn required_probes(prop: &str) -> Vec<&'static str> {
 pub fn nontrivial_rule(prop: &str) -> String {
     match prop {
         "C04" => "one evaluation = one simulated run: a seeded history of 2..12 operations (run_inner, completion at revisions 0/1/7/8/9, markdown/html/manpage, check_invariants, env edits, new parsers) on 1..2 long-lived generated parsers. A run is non-trivial when it had at least one seam event (environment read, env edit, injected callback fault) AND its operations ended in at least two different outcome classes; distinct = distinct hash of (definitions, initial environment, operation list with fault plans)".to_string(),
+        "C18" => "one evaluation = one simulated run: a seeded history of 2..10 operations (environment edits over declared names, their aliases and undeclared look-alikes; run_inner on plain and mutated command lines; help requests; new parsers) on 1..2 long-lived generated parsers whose named items are env-backed under every wrapper. A run is non-trivial when at least one environment read found a variable set AND at least one relational rule (R2 line-wins or R3 variable-equals-typed-value) was evaluated on it; distinct = distinct hash of (definitions, initial environment, operation list)".to_string(),
         _ => String::new(),
     }
 }
@@ -107,6 +141,10 @@ pub fn assumptions(prop: &str) -> Vec<String> {
         "the seams in /repo/src/verif.rs (cfg bpaf_verif) are the only route from bpaf to the environment, argv, stdout/stderr and process::exit; asserted by a source scan in ./check".to_string(),
         "generated definitions respect bpaf's documented usage rules and pass check_invariants".to_string(),
     ];
+    if prop == "C18" {
+        v.push("relational rules R2-R5 are evaluated only on command lines the oracle's scanner fully understands and only for items in the contexts argued sound in DESIGN.md section 7 (C18); other lines and contexts still get R1 and R7".to_string());
+        v.push("a finite pool of static variable names; Windows' case-insensitive environment is not modelled".to_string());
+    }
     if prop == "C04" {
         v.push("'for every byte-string vector' is reached only as far as the workload samples inputs; the simulation adds the history, ambient-state, exit and step-count dimensions".to_string());
     }
@@ -158,7 +196,7 @@ fn worker(args: &[String]) -> i32 {
         }
     }
     for i in indices {
-        if stats.get("runs.violating") >= 50 {
+        if stats.get("runs.violating") >= 50 || stats.get("runs.violating.T5") >= 3 {
             // plenty of evidence; do not burn the budget on a tree that fails everywhere
             stats.bump("runs.skipped_after_50_violations");
             continue;
@@ -173,6 +211,7 @@ fn worker(args: &[String]) -> i32 {
         }
         if let Some(v) = &rep.violation {
             stats.bump("runs.violating");
+            stats.bump(&format!("runs.violating.{}", v.rule));
         }
         // one raw case per distinct failure key and worker is plenty
         if let Some(v) = rep.violation.as_ref().filter(|v| seen_keys.insert(v.key.clone())) {
